@@ -129,6 +129,38 @@ Qed.
 Lemma to_nat_neq : forall h h' : N, h' <> h -> N.to_nat h' <> N.to_nat h.
 Proof. intros h h' H E. apply H. apply N2Nat.inj. exact E. Qed.
 
+(* the guarded handle-to-index conversion *)
+Lemma idx_lt : forall n id, N.to_nat id < n -> idx n id = N.to_nat id.
+Proof. intros n id H. unfold idx. destruct (N.ltb_spec id (N.of_nat n)); lia. Qed.
+
+Lemma idx_ge : forall n id, n <= N.to_nat id -> idx n id = n.
+Proof. intros n id H. unfold idx. destruct (N.ltb_spec id (N.of_nat n)); lia. Qed.
+
+Lemma idx_le : forall n id, idx n id <= n.
+Proof.
+  intros n id. destruct (Nat.lt_ge_cases (N.to_nat id) n) as [H|H].
+  - rewrite idx_lt by assumption. lia.
+  - rewrite idx_ge by assumption. lia.
+Qed.
+
+Lemma idx_lt_iff : forall n id, idx n id < n <-> N.to_nat id < n.
+Proof.
+  intros n id. destruct (Nat.lt_ge_cases (N.to_nat id) n) as [H|H].
+  - rewrite idx_lt by assumption. tauto.
+  - rewrite idx_ge by assumption. lia.
+Qed.
+
+(* distinct in-range handles have distinct indices; an out-of-range handle maps to n *)
+Lemma idx_inj : forall n h h',
+  h' <> h -> idx n h < n -> idx n h' <> idx n h.
+Proof.
+  intros n h h' Hne Hlt E. pose proof (proj1 (idx_lt_iff n h) Hlt) as Hh.
+  rewrite (idx_lt n h Hh) in E.
+  destruct (Nat.lt_ge_cases (N.to_nat h') n) as [H|H].
+  - rewrite idx_lt in E by assumption. apply Hne. apply N2Nat.inj. exact E.
+  - rewrite idx_ge in E by assumption. lia.
+Qed.
+
 Section ArenaProofs.
 Variable T : Type.
 Variable dflt : T.
@@ -150,9 +182,17 @@ Lemma a_get_eq : forall (a : arena) h,
               else None.
 Proof.
   intros a h. unfold a_get. destruct (h =? NULL)%N; auto.
-  destruct (Nat.ltb_spec (N.to_nat h) (length (store a))) as [Hlt|Hge]; cbn [andb]; auto.
-  destruct (mask_at a (N.to_nat h)); auto.
-  symmetry. apply nth_error_None. lia.
+  destruct (Nat.lt_ge_cases (N.to_nat h) (length (store a))) as [Hlt|Hge].
+  - rewrite idx_lt by assumption.
+    destruct (Nat.ltb_spec (N.to_nat h) (length (store a))); [| lia]. reflexivity.
+  - rewrite idx_ge by assumption. rewrite Nat.ltb_irrefl. cbn [andb].
+    destruct (mask_at a (N.to_nat h)); auto.
+    symmetry. apply nth_error_None. lia.
+Qed.
+
+Lemma mask_at_ge : forall (a : arena) i, length (mask a) <= i -> mask_at a i = false.
+Proof.
+  intros a i H. unfold mask_at. apply nth_error_None in H. rewrite H. reflexivity.
 Qed.
 
 Lemma a_get_Some : forall (a : arena) h x,
@@ -204,17 +244,18 @@ Proof. intros a. unfold a_get. rewrite N.eqb_refl. reflexivity. Qed.
 Theorem get_out_of_range : forall (a : arena) h,
   length (store a) <= N.to_nat h -> a_get a h = None.
 Proof.
-  intros a h H. unfold a_get. destruct (h =? NULL)%N; auto.
-  destruct (Nat.ltb_spec (N.to_nat h) (length (store a))); [lia | reflexivity].
+  intros a h H. rewrite a_get_eq. destruct (h =? NULL)%N; auto.
+  apply nth_error_None in H. rewrite H. destruct (mask_at a (N.to_nat h)); reflexivity.
 Qed.
 
 (* 6. contains *)
 Theorem contains_spec : forall (a : arena) h, a_contains a h = is_some (a_get a h).
 Proof.
   intros a h. unfold a_contains, a_get. destruct (h =? NULL)%N; auto.
-  destruct (Nat.ltb_spec (N.to_nat h) (length (store a))) as [Hlt|Hge]; cbn [andb]; auto.
-  destruct (mask_at a (N.to_nat h)); auto.
-  destruct (nth_error (store a) (N.to_nat h)) eqn:E; auto.
+  set (i := idx (length (store a)) h).
+  destruct (Nat.ltb_spec i (length (store a))) as [Hlt|Hge]; cbn [andb]; auto.
+  destruct (mask_at a i); auto.
+  destruct (nth_error (store a) i) eqn:E; auto.
   apply nth_error_None in E. lia.
 Qed.
 
@@ -386,10 +427,17 @@ Theorem deallocate_spec : forall (a : arena) h, ArenaInv a ->
     (a_get a h <> None ->
      a_len a = S (a_len a') /\ a_free_count a' = S (a_free_count a)).
 Proof.
-  intros a h Hinv. unfold deallocate.
+  intros a h Hinv. unfold deallocate. cbv zeta.
   destruct (N.eqb_spec h NULL) as [->|Hne].
   { exists a. split; [rewrite get_null; reflexivity |].
     apply (release_post_dead a NULL Hinv (get_null a)). }
+  destruct (Nat.lt_ge_cases (N.to_nat h) (length (mask a))) as [Hin|Hout].
+  2:{ rewrite idx_ge by assumption. rewrite mask_at_ge by lia. cbn [negb].
+      assert (Hg : a_get a h = None).
+      { apply a_get_dead. apply nth_error_None in Hout. rewrite Hout. discriminate. }
+      exists a. split; [rewrite Hg; reflexivity |].
+      apply (release_post_dead a h Hinv Hg). }
+  rewrite idx_lt by assumption.
   destruct (mask_at a (N.to_nat h)) eqn:Hm; cbn [negb].
   - apply mask_at_true in Hm. pose proof Hinv as (Hlen & _ & _).
     assert (Hlt : N.to_nat h < length (mask a)) by (apply nth_error_Some; congruence).
@@ -419,10 +467,17 @@ Theorem deallocate_no_return_spec : forall (a : arena) h, ArenaInv a ->
     (a_get a h <> None ->
      a_len a = S (a_len a') /\ a_free_count a' = S (a_free_count a)).
 Proof.
-  intros a h Hinv. unfold deallocate_no_return.
+  intros a h Hinv. unfold deallocate_no_return. cbv zeta.
   destruct (N.eqb_spec h NULL) as [->|Hne].
   { exists a. split; [rewrite get_null; reflexivity |].
     apply (release_post_dead a NULL Hinv (get_null a)). }
+  destruct (Nat.lt_ge_cases (N.to_nat h) (length (mask a))) as [Hin|Hout].
+  2:{ rewrite idx_ge by assumption. rewrite Nat.leb_refl. cbn [orb].
+      assert (Hg : a_get a h = None).
+      { apply a_get_dead. apply nth_error_None in Hout. rewrite Hout. discriminate. }
+      exists a. split; [rewrite Hg; reflexivity |].
+      apply (release_post_dead a h Hinv Hg). }
+  rewrite idx_lt by assumption.
   destruct (mask_at a (N.to_nat h)) eqn:Hm; cbn [negb].
   - apply mask_at_true in Hm. pose proof Hinv as (Hlen & _ & _).
     assert (Hlt : N.to_nat h < length (mask a)) by (apply nth_error_Some; congruence).
@@ -459,10 +514,13 @@ Proof.
     ArenaInv a /\ a_len a = a_len a /\ free a = free a /\
     length (store a) = length (store a)).
   { intros Hb. repeat (split; [solve [auto | congruence] |]). reflexivity. }
-  generalize (contains_spec a h). unfold a_contains, a_set.
+  generalize (contains_spec a h). unfold a_contains, a_set. cbv zeta.
   destruct (N.eqb_spec h NULL) as [E|Hne]; [exact Hsame |].
-  destruct (Nat.ltb_spec (N.to_nat h) (length (store a))) as [Hlt|Hge]; cbn [andb];
-    [| exact Hsame].
+  destruct (Nat.lt_ge_cases (N.to_nat h) (length (store a))) as [Hlt|Hge];
+    [rewrite idx_lt by assumption
+    | rewrite idx_ge by assumption; rewrite Nat.ltb_irrefl; exact Hsame].
+  destruct (Nat.ltb_spec (N.to_nat h) (length (store a))) as [_|Hge]; [| lia].
+  cbn [andb].
   destruct (mask_at a (N.to_nat h)) eqn:Hm; [| exact Hsame].
   intros _.
   clear Hsame. apply mask_at_true in Hm. destruct Hinv as (Hlen & Hnd & Hfree).
